@@ -98,6 +98,11 @@ func (in *Interp) lowerOf(v Value) Value {
 			}
 		}
 		app := in.B.UF("lower", sym.BVSort(32), x.Atom)
+		if x.Atom.Op == "var" {
+			// a named copy of lower(x), so that models can be decoded into case variants
+			lv := in.B.Var("|lower:"+strings.Trim(x.Atom.Str, "|")+"|", sym.BVSort(32))
+			in.lowerAxioms = append(in.lowerAxioms, in.B.Eq(lv, app))
+		}
 		seen := false
 		for _, a := range in.lowerApps {
 			if a == app {
